@@ -188,6 +188,8 @@ pub fn run(ctx: &Ctx) -> Rep {
     // ---- six and seven cards under the three non-trivial shifts ---------------------
     let rate6 = ctx.pick(1, 1, 1);
     let rate7 = ctx.pick(1, 4, 1);
+    let leg_div: u64 = if ctx.leg == "checked" && !ctx.thorough() && !ctx.smoke() { 4 } else { 1 };
+    let (rate6, rate7) = (rate6 * leg_div, rate7 * leg_div);
     let s6 = par_subsets::<6, X, _, _>(ctx, us, mk, |st, c, _| {
         if !selected(c, seed, 0x86, rate6) {
             return;
